@@ -12,6 +12,31 @@ CHECKS = {
    note=TRUST + "the family is a sample of all specs (curated operator nestings + seeded random grammar derivations); inputs longer than the bound are covered only by the structural check; unclaimed inputs (DESIGN 3.6) give no verdict; Dev_GreedyGroup is a listed finding",
    technique="TLA+ reference semantics evaluated by TLC over a bounded-exhaustive case family, each TLC-generated case replayed on the real code (spec->code conformance)",
    design="4 (C01), 3"),
+ "C02": dict(level="model_checking", engine="RefEnum+RefGroups",
+   text="For every case TLC enumerates (bounded-exhaustive family) or is handed (random sentences of further specs in random spellings) RefSemantics.tla yields the SET of valid derivations; the library's observed per-variable sequence of Set calls (recording value types) must be a member. TLC also checks on the reference that positionals are bound in order and that tokens behind the marker are bound verbatim.",
+   note=TRUST + "sampled spec family; only accepted cases matter; which of several valid derivations the search picks is not constrained",
+   technique="TLA+ reference semantics (set of valid derivations) evaluated by TLC; TLC-generated/TLC-judged cases replayed on the real code and the observed bindings checked for membership",
+   design="4 (C02), 3.4"),
+ "C09": dict(level="model_checking", engine="RefGroups",
+   text="(a) TLC confirms each generated group is a base line plus insertions of -- inside its trailing positional block (relation InsertRel over CmdLine!ItemsOf), checks the law on the reference and the library must give the same outcome for all members; (b) for specs with and without a spec-level --, command lines with dash-prefixed tokens and further -- behind the marker are predicted by the reference and compared with the library's bindings.",
+   note=TRUST + "sampled families (random sentences of sampled specs); environment-free as the property states",
+   technique="TLA+ relation + law checked by TLC on generated groups (trace validation of the generator), predictions replayed on the real code, metamorphic comparison of real outcomes",
+   design="4 (C09)"),
+ "C10": dict(level="model_checking", engine="RefGroups",
+   text="A group is one --free spec and all (capped) command lines with the same item reading; TLC proves membership with CmdLine!ItemsOf (every spelling, every folding), checks that the reference is constant on the class, and the library must produce the same acceptance and the same bound values for all members.",
+   note=TRUST + "sampled specs and sentences; class members capped in the quick tier; values non-empty, not starting with - or =",
+   technique="TLA+ definition of re-spelling (ItemsOf) checked by TLC on every generated class; real outcomes of all class members compared",
+   design="4 (C10/C11), 3.2"),
+ "C11": dict(level="model_checking", engine="RefGroups",
+   text="Pairs of command lines whose item readings differ by one transposition of adjacent occurrences of different options (TLC checks IsAdjSwap), in random spellings including the pair folded into one token; the library's outcomes must be equal, and TLC checks the same law on the reference.",
+   note=TRUST + "sampled specs and sentences",
+   technique="TLA+ definition of adjacent swap checked by TLC on every generated pair; real outcomes compared",
+   design="4 (C10/C11)"),
+ "C12": dict(level="model_checking", engine="RefGroups",
+   text="Pairs (E, E+{o}) of environment-backed sets on the same spec and command line (TLC checks EnvRel and that the reference is monotone: every derivation under E survives under E+{o} for --free specs); on the library, accepted under E implies accepted under E+{o} with identical option values, and each run must agree with the reference under its own environment (required option satisfied by its environment value).",
+   note=TRUST + "sampled specs and sentences; environment values are always valid; group-satisfied-by-environment verdicts are unclaimed (DESIGN 3.6 iii)",
+   technique="TLA+ monotonicity law checked by TLC on the reference; predictions and pair law replayed on the real code",
+   design="4 (C12)"),
 }
 
 NA_REASON = "check not built yet (framework under construction; see DESIGN.md section 9 for the order)"
@@ -25,7 +50,9 @@ def main():
                    "source_commits": ["d626f91"], "add_only": True},
          "engines": [
              {"name": "RefEnum", "path": "tla/RefEnum.tla tla/RefSemantics.tla tla/CmdLine.tla vlib/refenum.py harness/exec.go",
-              "serves_properties": ["C01"], "kind_free_text": "TLC-enumerated cases with reference prediction, replayed on the library"}],
+              "serves_properties": ["C01", "C02"], "kind_free_text": "TLC-enumerated cases with reference prediction, replayed on the library"},
+             {"name": "RefGroups", "path": "tla/RefGroups.tla tla/RefSemantics.tla tla/CmdLine.tla vlib/groups.py props/groupcommon.py harness/exec.go",
+              "serves_properties": ["C02", "C09", "C10", "C11", "C12"], "kind_free_text": "groups of related cases: TLC validates the relation, checks the law on the reference, predicts; the library runs every member"}],
          "checks": [], "not_applicable": [],
          "notes": "All checks: ./check <id> [--tier quick|thorough]; exit 2 = machinery failure (never a verdict). Fix commits in /repo: 4e600a3 a7ec4b7 9987887 7c7116f f237444 08da7e9 0f4c4bd (see findings/known.json)."}
     for p in props:
